@@ -16,10 +16,7 @@ def extract_make_sincs(facts):
                 tenv.locals.setdefault(nm_, "int")
     alg = Alg(tenv, sym_assumptions={npoints: {"integer": True, "positive": True}, factor: {"integer": True, "positive": True}})
     m = {"fn": fn, "alg": alg, "params": (npoints, factor, f_cutoff, windowfunc)}
-    env = {}
-    for s in fn["body"]["stmts"]:
-        if s["k"] == "let" and s["pat"]["k"] == "pident" and s.get("init") is not None:
-            env[s["pat"]["name"]] = s["init"]
+    env = ir.let_env(fn)
     # roles instead of names: the window is the value of the make_window(..) call; its first argument is the total number of points;
     # the table is the function's tail expression; the tap vector is what the sample loop pushes to; the normaliser is what it accumulates
     wname = wc = None
